@@ -18,7 +18,14 @@
    readers to drain -- this is what turns a re-entrant RLock into a deadlock.  Unlock admits all
    queued readers at once, then hands over to a queued writer.  sync.Mutex = same with L/U only.
 
-   Data: a file's content is the set of tokens (bytes) written to it.  node[f] = File.node,
+   Descriptor rule (stated by Apply, independent of the code): EVERY modifying call of a descriptor --
+   Write, WriteAt, Truncate -- in EVERY descriptor state (created, dirty, flushed) changes the descriptor's
+   view buf[t] and makes the descriptor "dirty"; a Flush()/Close() that returns acknowledges the whole view
+   (acked[f] gets buf[t]), whatever sequence of calls preceded it.  The programs observed in the code are
+   keyed by that sequence, so a call that forgets to mark the descriptor dirty yields a Flush/Close
+   program without the File.node assignment and AckedWriteVisible fails in the model.
+
+   Data: a file's content is the set of tokens (bytes) written to it (Truncate(size+1) = token 0).  node[f] = File.node,
    entry[f] = the parent directory's link, buf[t] = the descriptor's DagModifier view,
    loc/tmp = values read by GetNode()/setNodeData.  acked[f] = tokens whose Flush()/Close()
    returned.  Ideal programs are the default; an as-built variant is selected by a deviation
@@ -121,6 +128,7 @@ ProgSet(op, f, t, s, w, sync, hs) ==
       [] op = "WriteAt"  -> {Mu(t, "-") \o Mu(t, "wbuf")}              \* n := Size(); WriteAt(token, n)
       [] op = "Trunc"    -> {Mu(t, "-") \o Mu(t, "tbuf")}              \* n := Size(); Truncate(n + 1)
       [] op = "Read"     -> {Mu(t, "rbuf")}                            \* CtxReadFull
+      [] op = "ReadP"    -> {Mu(t, "rbuf")}                            \* Read (io.Reader)
       [] op = "FdFlush"  -> {FdFlushP(t, f, s)}
       [] op = "Close"    -> {CloseP(t, f, s, w, sync)}
       [] op = "FileFlush" -> {OpenP(f, "L", "openws") \o FdFlushP(t, f, "created")
@@ -136,7 +144,7 @@ ProgSet(op, f, t, s, w, sync, hs) ==
       [] op \in {"ListNames", "Lookup", "Mkdir", "Unlink", "Uncache0"} -> {DirLU("-")}
       [] op = "DirGetNode" -> {DirGetNodeP(p) : p \in Perms}
       [] op = "DirFlush" -> {DirGetNodeP(p) : p \in Perms}
-      [] op = "RootFlush" -> {DirGetNodeP(p) : p \in Perms}           \* Root.Flush = root directory GetNode
+      [] op \in {"RootFlush", "RootClose", "FlushMemFree"} -> {DirGetNodeP(p) : p \in Perms}  \* Root methods = getNode of the root directory
       \* Directory.SetMode/SetModTime on the ROOT directory: GetNode, then setNodeData (its parent is the
       \* Root object, which has no lock) re-locks the directory to replace unixfsDir
       [] op = "RootSetMode" -> {DirGetNodeP(p) \o DirLU("-") : p \in Perms}
@@ -150,6 +158,12 @@ ProgSet(op, f, t, s, w, sync, hs) ==
                              \o << <<"U", "dir", "sub", "-">> >>}
       [] op \in {"SubListNames", "SubLookup", "SubUnlink", "SubAddChild"} -> {SubLU("-")}
       [] op = "AddChild" -> {DirLU("-")}
+      [] op = "PutNodeSub" -> {DirLU("-") \o SubLU("-")}               \* PutNode(/d/x): Lookup(/d), d.AddChild
+      \* Mkdir(/d/x, Flush): Lookup(/d); d.Mkdir(x) (d's lock, inside it the new object's lock); x.Flush():
+      \* x.getNode, then the update goes up through d and the root (one section each, never nested)
+      [] op = "MkdirOps" -> {DirLU("-") \o << <<"L", "dir", "sub", "-">>, <<"L", "dir", NN[t], "-">>, <<"U", "dir", NN[t], "-">>,
+                                               <<"U", "dir", "sub", "-">>, <<"L", "dir", NN[t], "-">>, <<"U", "dir", NN[t], "-">> >>
+                             \o SubLU("-") \o DirLU("-")}
       \* Mkdir of a NEW name: under the parent's lock the new directory object is created and its GetNode()
       \* takes the new object's own lock (parent->child)
       [] op = "MkdirNew" -> {<< <<"L", "dir", "root", "-">>, <<"L", "dir", NN[t], "-">>, <<"U", "dir", NN[t], "-">>,
